@@ -147,6 +147,7 @@ def run(tier, seed):
                        "import order inside a declaration follows the text"]
     leg = "dev" if tier == "quick" else "release"
     jobs, meta = [], []
+    cases = core.mine(cases)
     for ci, (mode, n, adj, kinds) in enumerate(cases):
         d = None
         if mode == "file":
